@@ -1,6 +1,7 @@
 (** C02 — every command is applied once, after its ancestors; merges never evaluated. *)
 From Aranya Require Import base.Tactics model.Dag model.Braid
-  proofs.BraidDag proofs.BraidSpec proofs.BraidIterProofs proofs.BraidMain gen.GenBraid proofs.BraidPins.
+  proofs.BraidDag proofs.BraidSpec proofs.BraidIterProofs proofs.BraidMain proofs.BraidTrace gen.GenBraid proofs.BraidPins
+  model.ConvSpill proofs.ConvSpillProofs model.ConvBfs proofs.BraidLca proofs.ConvBfsProofs.
 
 Theorem braid_exactly_once : braid_exactly_once_stmt.
 Proof. exact braid_exactly_once_proof. Qed.
@@ -15,6 +16,29 @@ Check braid_exactly_once :
     /\ (forall x h, In h hs -> anc g x h -> is_merge_id g x = false -> In x order \/ anc g x base)
     /\ (forall a c, In a order -> In c order -> anc g a c -> a <> c -> before a c order).
 Print Assumptions braid_exactly_once.
+
+(** The whole evaluation sequence behind a stored state (stored state of the
+    base, recursively, followed by the braid order): every non-merge ancestor
+    exactly once, ancestors first, no merge command. *)
+Theorem trace_exactly_once : trace_exactly_once_stmt.
+Proof. exact trace_exactly_once_proof. Qed.
+Check trace_exactly_once :
+  forall (g : graph) (i : N) (t : list N),
+    wf_graph g -> single_root g -> trace g i = Some t ->
+    NoDup t
+    /\ (forall x, In x t <-> anc g x i /\ is_merge_id g x = false)
+    /\ (forall a b, In a t -> In b t -> anc g a b -> a <> b -> before a b t).
+Print Assumptions trace_exactly_once.
+
+Theorem braid_trace_exactly_once : braid_trace_exactly_once_stmt.
+Proof. exact braid_trace_exactly_once_proof. Qed.
+Check braid_trace_exactly_once :
+  forall (g : graph) (hs : list N) (t : list N),
+    wf_graph g -> single_root g -> hs <> [] -> incl hs (ids g) -> braid_trace g hs = Some t ->
+    NoDup t
+    /\ (forall x, In x t <-> (exists h, In h hs /\ anc g x h) /\ is_merge_id g x = false)
+    /\ (forall a b, In a t -> In b t -> anc g a b -> a <> b -> before a b t).
+Print Assumptions braid_trace_exactly_once.
 
 Theorem braid_total : braid_total_stmt.
 Proof. exact braid_total_proof. Qed.
@@ -45,7 +69,8 @@ Check braid_shapes_generated :
   strand_key_is_priority_id = true /\ strand_ord_reversed = true /\ strand_heap_is_binary_heap = true
   /\ cutoff_is_le_lca = true /\ heads_seeded_through_convergence = true /\ merge_skipped_by_prior = true
   /\ lone_is_len_one = true /\ second_finalize_refused = true
-  /\ bfs_inserts_count_ge_2 = true /\ bfs_cutoff_is_le_lca = true /\ consume_decrements_above_one = true.
+  /\ bfs_inserts_count_ge_2 = true /\ bfs_cutoff_is_le_lca = true /\ consume_decrements_above_one = true
+  /\ disk_block_searched_before_install = true /\ lru_is_first_strictly_lowest = true.
 Print Assumptions braid_shapes_generated.
 
 (** The unrepaired braid (F7): a command applied on top of a state that contains it. *)
@@ -57,3 +82,54 @@ Check braid_comparable_heads_refuted :
     /\ braid_unrepaired g hs = BOk base order
     /\ exists c, In c order /\ anc g c base.
 Print Assumptions braid_comparable_heads_refuted.
+
+(** The block / LRU / spill representation of the convergence map answers
+    every interleaving of BFS insertions and strand queries exactly like the
+    pure map used by [braid_L1] — for every block size >= 1, every number of
+    in-memory blocks >= 1 and every root capacity ([None] = the
+    ConvergenceRootOverflow error). *)
+Theorem conv_spill_refines : forall mc B RC, conv_spill_refines_stmt mc B RC.
+Proof. exact conv_spill_refines_proof. Qed.
+Check conv_spill_refines :
+  forall (mc : N -> N) (B RC nb : nat) (ops : list cop) (out : list bool),
+    1 <= B -> 1 <= nb -> fresh_inserts [] ops ->
+    run_impl mc B RC (cs_init nb) ops = Some out -> out = run_spec [] ops.
+Print Assumptions conv_spill_refines.
+
+Theorem conv_lookup_refines : forall mc B RC, 1 <= B -> conv_lookup_refines_stmt mc B RC.
+Proof. exact conv_lookup_refines_proof. Qed.
+Check conv_lookup_refines :
+  forall (mc : N -> N) (B RC : nat), 1 <= B ->
+  forall (st : cstate) (m : list entry) (x : N),
+    Inv mc B st -> Permutation.Permutation (absmap st) m ->
+    match lookup mc RC st x with
+    | COk (st', go) =>
+        Inv mc B st' /\ go = snd (conv_query m x) /\ Permutation.Permutation (absmap st') (fst (conv_query m x))
+    | CErr e => e = RootOverflow
+    end.
+Print Assumptions conv_lookup_refines.
+
+(** The lookup loop before the repair (F30) does not come back. *)
+Theorem conv_lookup_old_refuted : conv_lookup_old_refuted_stmt.
+Proof. exact conv_lookup_old_refuted_proof. Qed.
+Check conv_lookup_old_refuted :
+  exists st, st_f30 = COk st
+    /\ In (3, 2)%N (absmap st)
+    /\ disk_search_old mc_flat 100 2000
+         {| blocks := blocks st; active := active st; root := root st; file := file st;
+            next_off := next_off st; access := (access st + 1)%N |} 0 3%N = None
+    /\ exists st', lookup mc_flat 100 st 3%N = COk (st', false).
+Print Assumptions conv_lookup_old_refuted.
+
+(** The lazily advanced BFS of the convergence map (advance_to / pop_duplicates
+    over the traversal queue, any tie-break between locations of equal
+    max_cut) answers every sequence of region queries like the arrival map
+    computed up front, which is what [braid_L1] uses. *)
+Theorem lazy_bfs_refines : lazy_bfs_refines_stmt.
+Proof. exact lazy_bfs_refines_proof. Qed.
+Check lazy_bfs_refines :
+  forall (g : graph) (hs : list N) (d : N) (tie : N -> N -> bool) (xs : list N),
+    wf_graph g -> incl hs (ids g) -> (forall h, In h hs -> cdom g d h) ->
+    (forall x, In x xs -> (exists h, In h hs /\ anc g x h) /\ (max_cut g d < max_cut g x)%N) ->
+    lazy_run g (max_cut g d) tie (length g) (bfs_init hs) xs = eager_run (conv_init g (max_cut g d) hs) xs.
+Print Assumptions lazy_bfs_refines.
